@@ -71,7 +71,7 @@ namespace Bottleneck
 /-- `NetworkBottleneck::new(network, window, queue_pps)` -/
 def new (network : Network) (window : Nat) (queuePps : Option Nat) : Except SimFault Bottleneck :=
   let pps := network.pps.getD (queuePps.getD usizeMax)
-  let div := pps % 2 ^ 32        -- `pps as u32`
+  let div := min pps (2 ^ 32 - 1)   -- `u32::try_from(pps).unwrap_or(u32::MAX)`
   if div = 0 then .error .divZero else
   .ok { clientAgg := 0, serverAgg := 0, aggQueue := Heap.empty, network := network,
         clientWindow := ⟨window, []⟩, serverWindow := ⟨window, []⟩,
